@@ -8,7 +8,7 @@ import os
 import shutil
 import sqlite3
 
-from .. import enc, ledger, refmodel, seams, simnet, world
+from .. import enc, ledger, refmodel, seams, simnet, thrscen, world
 from ..world import K, oref, owned
 from . import c13
 
@@ -28,6 +28,9 @@ def setup_worker():
     net = simnet.Net(seams.Clock(0))
     net.install()
     seams.rebind(mining, 'time', net.clock)
+    # retarget period 4 (timespan scaled alike): candidates at heights 4 and 8 are retarget-boundary blocks, whose
+    # prescribed target depends on the candidate's own time stamp
+    seams.retarget_period(4, 480)
     # root target 2^255: about every second nonce wins, so runs contain losing requests before the winning one
     uni = ledger.tx_universe('easy', root_target=(1 << 255).to_bytes(32, 'big'))
     # save_wallet writes wallet.json(.new) into the cwd: one private directory per worker process
@@ -85,6 +88,7 @@ def one_run(hist, pool_names, off, inter, uni_kind='easy'):
     for lst in (net.escaped, net.dialling, net.connections, net.nodes):
         lst.clear()
     net.listeners.clear()
+    net._eph = 40000
     bad = []
     info = {}
     # ---- ledger state + store holding it
@@ -178,6 +182,8 @@ def one_run(hist, pool_names, off, inter, uni_kind='easy'):
                 info['competitor_stored'] = True
                 if node.cm.coinstate.current_chain_hash == comp.bid:
                     cur['head'] = comp
+        elif ikind == 'clock-advances':
+            net.clock.t += 7
         elif ikind == 'pool-gains-tx':
             extra = [t for nm, t in menu.items() if nm not in pool_names]
             if extra:
@@ -234,7 +240,7 @@ def one_run(hist, pool_names, off, inter, uni_kind='easy'):
             node.flush()
             drain_peers()
             if blk is not None and blk.hash() < blk.target:
-                found_blocks.append({'block': blk, 'req': r, 'before_cm_head': before_cm_head, 'exc': exc, 'miner': m,
+                found_blocks.append({'block': blk, 'req': r, 'before_cm_head': before_cm_head, 'exc': exc, 'miner': m, 'clock': net.clock.t,
                                      'cm_after': node.cm.coinstate, 'pub': r.get('pub')})
                 if node.cm.coinstate.current_chain_hash == enc.blockid(blk):
                     cur['head'] = world.Node(blk, r['parent'], path=r['parent'].path + ('mined%d' % len(found_blocks),), check_apply=False)
@@ -262,9 +268,9 @@ def one_run(hist, pool_names, off, inter, uni_kind='easy'):
         Hp = r['parent']
         bid = enc.blockid(found)
         miner_pub = r['pub']
-        tags = refmodel.validate_block(found, Hp, clock)
+        tags = refmodel.validate_block(found, Hp, fb['clock'])
         try:
-            r['served'][0].add_block(found, clock)
+            r['served'][0].add_block(found, fb['clock'])
             own_ok = True
         except Exception as e:
             own_ok = False
@@ -338,6 +344,8 @@ def configs(ctx):
                     if off in (-1, 0, 120) and len(sub) <= 1:
                         for pos in (('after-request', 0), ('after-request', 1), ('after-result', 0)):
                             inters += [('competing-block', pos), ('pool-gains-tx', pos)]
+                            if off >= 0:
+                                inters += [('clock-advances', pos)]
                     if off in (0, 120) and len(sub) <= 1:
                         # two miner processes sharing the watcher: req0 req1 res0 res1 ...; event after operation k
                         inters += [('none', ('two', 0))]
@@ -372,6 +380,10 @@ def _worker(chunk):
 
 
 def run(ctx):
+    # ---- the schedule dimension first (its workers are forked before this module's seams are installed): the
+    #      found-block handler (miner thread) against the networking thread handling a delivery
+    thr = thrscen.run(ctx, 'MN', 1 if ctx.quick else 2, only=['C12:'])
+    ctx.cov['thread_schedules'] = thr
     cfgs, per_level = configs(ctx)
     ctx.log("ledger states per depth", per_level, "runs", len(cfgs))
     if ctx.seed:
@@ -393,13 +405,15 @@ def run(ctx):
         'samples': [{'history': ledger.hist_str(cfgs[0][0]), 'pool': list(cfgs[0][1]), 'clock_offset': cfgs[0][2], 'event': cfgs[0][3]}],
         'runs': tot['runs'], 'blocks_found': tot['found'], 'runs_skipped': tot['skipped'], 'exhaustive': True,
         'rule': "states = ledger states of a block-tree search (depth %d beyond a funded prefix, forks, head on either branch); "
-                "per state every compatible pool subset of size <= 3 x clock - head time in %s x {no event, competing block "
+                "per state every compatible pool subset of size <= 3 x clock - head time in %s x {no event, clock advances by 7 s, competing block "
                 "arrives, pool gains a transaction} between work request and result; transitions = complete request/result "
                 "runs of the real MinerWatcher handlers" % (2 if ctx.quick else 3, list(OFFSETS)),
     })
 
 
 def replay(data, ctx):
+    if 'thread_scenario' in data:
+        return thrscen.replay(data)
     setup_worker()
     with contextlib.redirect_stdout(io.StringIO()):
         it = data['inter'] if isinstance(data['inter'], str) else (
